@@ -379,7 +379,7 @@ func processFile(path, rel, module string, pkgVars map[string]bool, clockRound m
 		ast.Inspect(f, func(n ast.Node) bool {
 			if se, ok := n.(*ast.SelectorExpr); ok {
 				if id, ok := se.X.(*ast.Ident); ok && id.Name == rw.syncName && id.Obj == nil {
-					if se.Sel.Name == "Mutex" || se.Sel.Name == "RWMutex" || se.Sel.Name == "Pool" {
+					if se.Sel.Name == "Mutex" || se.Sel.Name == "RWMutex" || se.Sel.Name == "Pool" || se.Sel.Name == "Once" {
 						se.X = ast.NewIdent(rtName)
 						rw.st.Mutexes++
 						rw.needRT = true
